@@ -193,7 +193,7 @@ func (s *c02Seq) seed() {
 		{"[1 2 3]", false}, {"(quote (1 2 3))", false}, {"(conj [1 2] 3)", false}, {"(vec (range 0 5))", false}, {"(list 1 2 3 4 5)", false},
 		{"{:k0 1 \"s1\" [1 2]}", false}, {"#{:k0 \"s1\"}", false}, {"[[1 2] (quote (3 4)) {:k1 [5]}]", false}, {"(subvec [0 1 2 3 4 5] 1 4)", true},
 		{"(rest [0 1 2 3])", true}, {"(concat [1 2] [3])", false}, {"(quote ())", false}, {"[]", false}, {"(seq [7 8 9])", true}, {"(take 2 [4 5 6 7])", true},
-		{"(apply list (range 0 6))", false}, {"(map inc [1 2 3])", false},
+		{"(apply list (range 0 6))", false}, {"(map inc [1 2 3])", false}, {"(quote [1 2 3])", false}, {"(quote [[1 2] (3 4) {:k [5]}])", false}, {"(first (quote ([7 8 9])))", true},
 	}
 	s.r.Shuffle(len(seeds), func(i, j int) { seeds[i], seeds[j] = seeds[j], seeds[i] })
 	for _, sd := range seeds[:6+s.r.Intn(6)] {
@@ -204,7 +204,7 @@ func (s *c02Seq) seed() {
 // step performs one derived operation; returns false after a violation.
 func (s *c02Seq) step() bool {
 	r := s.r
-	switch r.Intn(31) {
+	switch r.Intn(32) {
 	case 0, 1, 2, 3:
 		if v := s.pick(isSeqN); v != nil {
 			n := 1 + r.Intn(2)
@@ -345,6 +345,32 @@ func (s *c02Seq) step() bool {
 			}
 			return s.bind(fmt.Sprintf("(%s %s)", f, s.scalar()), "closure-call", false, a)
 		}
+	case 30:
+		// literals that are part of the program itself: a function (or macro) whose body derives from a quoted literal
+		// or from its operand form is run several times; every result must stay what it was, i.e. the program's own
+		// forms are values like any other
+		s.nFn++
+		f := fmt.Sprintf("g%d", s.nFn)
+		var def string
+		switch r.Intn(4) {
+		case 0:
+			def = fmt.Sprintf("(def %s (fn (x) (conj (quote [1 2 3]) x)))", f)
+		case 1:
+			def = fmt.Sprintf("(def %s (fn (x) (concat (quote (1 2 3)) [x])))", f)
+		case 2:
+			def = fmt.Sprintf("(def %s (fn (x) (quasiquote ((splice-unquote (quote [1 2])) (unquote x)))))", f)
+		default:
+			def = fmt.Sprintf("(do (defmacro %sm (fn (v) (list (quote quote) (conj v 9)))) (def %s (fn (x) (conj (%sm [1 2 3]) x))))", f, f, f)
+		}
+		if !s.effect(def, "program-literal") {
+			return false
+		}
+		for k := 0; k < 3; k++ {
+			if !s.bind(fmt.Sprintf("(%s %s)", f, s.scalar()), "program-literal-call", false) {
+				return false
+			}
+		}
+		return true
 	case 27:
 		// nesting: a value stored inside another collection
 		if a := s.pick(isCollN); a != nil {
